@@ -75,6 +75,12 @@ CHECKS.update({
     "C17": dict(cat="exploration", text="Directory layout x import chains of 1-3 hops (every hop spelling: ./ ../ bare a/b, detour, absolute) x 6 working directories x 4 entry-path spellings x chdir between parse and lookup; decoys with different values in every directory and in a mirror tree make a wrong base yield a wrong value; error shapes (string argument, call argument, <spath>, missing file).", ref="DESIGN.md 2/C17", note="Scratch tree created and removed by the check; values planted by the harness are the oracle.", technique="exhaustive product enumeration of layouts/chains/working directories with planted-value oracle"),
 })
 
+TEXT_NOTE = "Trusted base: tree-sitter-nix 0.1.0 decides which texts contain a syntax error (ERROR or MISSING node). 'All UTF-8 texts' is realised as all token strings up to the stated length over a 36-token alphabet plus every single-point damage of every seed program; longer texts and other byte alphabets are outside the bound."
+CHECKS.update({
+    "C07": dict(cat="fault_enumeration", text="Every single-point damage (delete, duplicate, swap, insert each of 31 tokens at each gap, truncate at every byte) of every seed program and all token strings up to the length bound, with surrounding-whitespace variants; for every text the grammar rejects: byte-identical pass-through, contains_error, `nima test` says Fail/1, set/rm refuse, and the text is refused as a VALUE without touching the document.", ref="DESIGN.md 2/C07", note=TEXT_NOTE, technique="exhaustive fault enumeration (all single-point damages of a seed corpus + all short token strings) on the real implementation"),
+    "C20": dict(cat="exploration", text="(a) the C07 text spaces with the oracle 'returns or raises ValueError'; (b) every nesting family (each composite construct nested in each of its own holes around two innermost programs; period-2 families) to depth 12 (thorough 18), measured by a deterministic count of rebuild() invocations: calls(2d) <= 16*calls(d), cap 2M calls.", ref="DESIGN.md 2/C20", note=TEXT_NOTE + " Growth is judged on call counts, not wall time; families are those of the catalogue.", technique="exhaustive enumeration of short texts and of nesting families x depth, deterministic call-count growth oracle"),
+})
+
 NOT_YET = {
 }
 
